@@ -1,10 +1,10 @@
 CONSTANTS
   Q = 5
   MaxSteps = 2
-  Lams <- AllLams
-  Bases <- ThreeBases
+  Lams <- TwoLams
+  Bases <- Base12
   Export = TRUE
 INIT Init
 NEXT Next
-INVARIANTS TrapdoorOK AllOpen TrapdoorPathAgrees Binding SingleChange EquivExported HashBinding ExportOK
+INVARIANTS TrapdoorOK AllOpen TrapdoorPathAgrees Binding SingleChange EquivExported HashBinding ElGamalBinding ExportOK
 CHECK_DEADLOCK FALSE
